@@ -191,6 +191,8 @@ def c_class(t, typedefs, depth=0):
         return prim[t]
     if t.startswith('struct ') or t.startswith('union '):
         return 'struct:' + t.split()[1]
+    if t == 'a_bool' and typedefs.get(t) == 'unsigned char':
+        return 'bool'  # the pre-C99 spelling of the truth type: one byte holding 0 or 1, the same machine type as _Bool and Rust's bool
     if t in typedefs and depth < 16:
         return c_class(typedefs[t], typedefs, depth + 1)
     return 'unknown:' + t
@@ -214,10 +216,13 @@ def main():
     ap.add_argument('--width', default='f64')
     ap.add_argument('--job', default='abi')
     ap.add_argument('--tier', default='quick')
+    ap.add_argument('--cstd', default='')  # language mode the C side is compiled in (the binding's build script passes none: the compiler default; c90 is the oldest mode the headers support)
     a, _ = ap.parse_known_args()
     JOB = a.job
     real = a.width
     cdef = ['-DA_SIZE_REAL=4'] if real == 'f32' else []
+    if a.cstd:
+        cdef.append('-std=' + a.cstd)
     inc = os.path.join(REPO, 'include')
     work = tempfile.mkdtemp(prefix='abi-', dir=os.environ.get('VERIF_BUILD', os.path.join(os.path.dirname(os.path.abspath(__file__)), '..', 'build')))
     try:
